@@ -15,7 +15,7 @@ def freq(n, i):
     return S.truediv(S.ite(S.lt(i, half), i, S.sub(i, n)), n)
 
 
-def _blur_lemma(name, qual, mk_args, kernel):
+def _blur_lemma(name, qual, mk_args, kernel, renormalised=False):
     def lemma(ctx):
         """The blur is |ifft2(fft2(img) * K)| (renormalised for jitter / smear) with the transfer function K of
         the statement, for images of ANY shape (n rows, m columns); K has unit gain at zero frequency."""
@@ -48,9 +48,23 @@ def _blur_lemma(name, qual, mk_args, kernel):
         with_hyp(ctx, inr, lambda: oblige_equal(ctx, 'C19::%s.transfer_function' % name, prod, S.mul(S.cx(specel), K)))
         K0 = kernel(ctx, n, m, 0, 0, args, kw)
         ctx.oblige('C19::%s.unit_gain_at_zero_frequency' % name, S.eq(K0, 1))
-        v = out.at((i, j))
-        if not isinstance(v, S.SumT):
-            pass
+        # what comes out: the modulus of the inverse transform, for jitter and smear rescaled by
+        # sum(img) / sum(modulus) - the step that keeps the total of the image
+        from lvc import prove
+        G = inv[0]['output']
+        mod = lambda a, b: L.sqrt_scalar(ctx, S.cabs2(S.cx(G.at((a, b)))))
+        if not renormalised:
+            with_hyp(ctx, inr, lambda: oblige_equal(ctx, 'C19::%s.output_is_the_modulus_of_the_inverse_transform' % name, out.at((i, j)), mod(i, j)))
+            return
+        prove.force(ctx, out)
+        total_mod = S.sigma(0, n, lambda a: S.sigma(0, m, lambda b: mod(a, b)))
+        v = prove.find_named_sum(ctx, total_mod)
+        ctx.oblige('C19::%s.renormalised_by_the_total_of_the_modulus' % name, v is not None)
+        if v is None:
+            return
+        total_img = S.sigma(0, n, lambda a: S.sigma(0, m, lambda b: img.at((a, b))))
+        with_hyp(ctx, inr + [v != 0], lambda: oblige_equal(ctx, 'C19::%s.output_is_modulus_times_total_of_image_over_total_of_modulus' % name,
+                                                            out.at((i, j)), S.truediv(S.mul(total_img, mod(i, j)), v)))
     return ('C19::' + name, lemma)
 
 
@@ -117,6 +131,6 @@ def zero_extent_is_identity(ctx):
 
 
 LEMMAS = [_blur_lemma('pixel', 'lentil.detector.pixel', _pix_args, pixel_kernel),
-          _blur_lemma('jitter', 'lentil.convolvable.jitter', _jit_args, jitter_kernel),
-          _blur_lemma('smear', 'lentil.convolvable.smear', _smear_args, smear_kernel),
+          _blur_lemma('jitter', 'lentil.convolvable.jitter', _jit_args, jitter_kernel, renormalised=True),
+          _blur_lemma('smear', 'lentil.convolvable.smear', _smear_args, smear_kernel, renormalised=True),
           ('C19::units_equivalent', units_equivalent), ('C19::zero_extent', zero_extent_is_identity)]
